@@ -13,12 +13,15 @@ typedef size_t iterator;                                           /* an iterato
 
 /* ghost: the XalanVector<XalanDOMChar> m_data, by CONTRACT (std::vector semantics, assumed): size and last element */
 size_t g_dsize; XalanDOMChar g_back;
+size_t g_w; XalanDOMChar g_elem_w;   /* one arbitrary tracked element m_data[g_w] (used by resize: content, not only size and terminator) */
 size_t g_slen;             /* length() of the NUL-terminated source string argument */
 bool xv_vec_empty(void) __CPROVER_requires(1) __CPROVER_assigns() __CPROVER_ensures(__CPROVER_return_value == (g_dsize == 0)) ;
 size_t xv_vec_size(void) __CPROVER_requires(1) __CPROVER_assigns() __CPROVER_ensures(__CPROVER_return_value == g_dsize) ;
 size_t xv_vec_end(void) __CPROVER_requires(1) __CPROVER_assigns() __CPROVER_ensures(__CPROVER_return_value == g_dsize) ;
 XalanDOMChar xv_vec_back(void) __CPROVER_requires(g_dsize > 0) __CPROVER_assigns() __CPROVER_ensures(__CPROVER_return_value == g_back) ;
-void xv_vec_set_back(XalanDOMChar v) __CPROVER_requires(g_dsize > 0) __CPROVER_assigns(g_back) __CPROVER_ensures(g_back == v) ;
+void xv_vec_set_back(XalanDOMChar v) __CPROVER_requires(g_dsize > 0) __CPROVER_assigns(g_back, g_elem_w) __CPROVER_ensures(g_back == v && g_elem_w == (g_w == g_dsize - 1 ? v : __CPROVER_old(g_elem_w))) ;
+void xv_vec_set(size_t i, XalanDOMChar v) __CPROVER_requires(/* element access inside the vector */ i < g_dsize) __CPROVER_assigns(g_back, g_elem_w)
+__CPROVER_ensures(g_back == (i == g_dsize - 1 ? v : __CPROVER_old(g_back)) && g_elem_w == (i == g_w ? v : __CPROVER_old(g_elem_w))) ;
 void xv_vec_reserve(size_t n) __CPROVER_requires(1) __CPROVER_assigns() __CPROVER_ensures(1) ;
 void xv_vec_push_back(XalanDOMChar v) __CPROVER_requires(g_dsize < XV_BIG) __CPROVER_assigns(g_dsize, g_back) __CPROVER_ensures(g_dsize == __CPROVER_old(g_dsize) + 1 && g_back == v) ;
 void xv_vec_insert_range(iterator pos, size_t n)
@@ -27,13 +30,19 @@ __CPROVER_ensures(g_dsize == __CPROVER_old(g_dsize) + n && ((pos < __CPROVER_old
 void xv_vec_insert_fill(iterator pos, size_t n, XalanDOMChar c)
 __CPROVER_requires(/* insert position inside the vector */ pos <= g_dsize && n <= XV_BIG) __CPROVER_assigns(g_dsize, g_back)
 __CPROVER_ensures(g_dsize == __CPROVER_old(g_dsize) + n && g_back == ((pos < __CPROVER_old(g_dsize) || n == 0) ? __CPROVER_old(g_back) : c)) ;
-void xv_vec_resize(size_t n, XalanDOMChar c)
-__CPROVER_requires(n <= XV_BIG) __CPROVER_assigns(g_dsize, g_back)
-__CPROVER_ensures(g_dsize == n && (n > __CPROVER_old(g_dsize) ==> g_back == c) && (n == __CPROVER_old(g_dsize) ==> g_back == __CPROVER_old(g_back))) ;
+void xv_vec_resize(size_t n, XalanDOMChar c)          /* std::vector::resize(n, c): existing elements keep their value, new ones are c */
+__CPROVER_requires(n <= XV_BIG) __CPROVER_assigns(g_dsize, g_back, g_elem_w)
+__CPROVER_ensures(g_dsize == n && (n > __CPROVER_old(g_dsize) ==> g_back == c) && (n == __CPROVER_old(g_dsize) ==> g_back == __CPROVER_old(g_back)))
+__CPROVER_ensures(g_w < __CPROVER_old(g_dsize) ? g_elem_w == __CPROVER_old(g_elem_w) : (g_w < n ==> g_elem_w == c)) ;
 void xv_vec_erase(iterator a, iterator b)
 __CPROVER_requires(/* erased range inside the vector */ a <= b && b <= g_dsize) __CPROVER_assigns(g_dsize, g_back)
 __CPROVER_ensures(g_dsize == __CPROVER_old(g_dsize) - (b - a) && ((b < __CPROVER_old(g_dsize) || a == b) ==> g_back == __CPROVER_old(g_back))) ;
 void xv_vec_assign(size_t n) __CPROVER_requires(n <= XV_BIG) __CPROVER_assigns(g_dsize, g_back) __CPROVER_ensures(g_dsize == n) ;
+/* theSubstring.assign(*this, position, count): contract of XalanDOMString::assign(const XalanDOMString&, size_type, size_type) (its own assert) */
+size_t g_sub_pos, g_sub_count; bool g_sub_done;
+void* xv_assign_from(void* target, const XalanDOMString* src, size_t pos, size_t count)
+__CPROVER_requires(/* the range handed to assign lies inside the source string */ pos <= src->m_size && count <= src->m_size - pos)
+__CPROVER_assigns(g_sub_pos, g_sub_count, g_sub_done) __CPROVER_ensures(g_sub_done == true && g_sub_pos == pos && g_sub_count == count) ;
 size_t xv_strlen(const XalanDOMChar* s) __CPROVER_requires(1) __CPROVER_assigns() __CPROVER_ensures(__CPROVER_return_value == g_slen) ;
 
 /* representation invariant of XalanDOMString (from invariants()): empty vector and size 0, or size+1 units ending in the terminator */
@@ -53,6 +62,7 @@ R = [('FCASTS', ['size_type', 'XalanDOMChar']),
      (r'm_data\.insert\(([^;]*?),\s*(theCount(?: \+ 1)?),\s*theChar\);', r'xv_vec_insert_fill(\1, \2, theChar);', (0, 3)),
      (r'm_data\.push_back\(\(\(XalanDOMChar\)\(0\)\)\);', 'xv_vec_push_back(0);', (0, 2)),
      (r'm_data\.push_back\(0\);', 'xv_vec_push_back(0);', (0, 2)),
+     (r'm_data\[(\w+)\] = (\w+);', r'xv_vec_set(\1, \2);', (0, 2)),
      (r'm_data\.back\(\) = 0;', 'xv_vec_set_back(0);', (0, 3)),
      (r'm_data\.back\(\)', 'xv_vec_back()', (0, 3)),
      (r'm_data\.reserve\(', 'xv_vec_reserve(', (0, 3)),
@@ -67,11 +77,11 @@ R = [('FCASTS', ['size_type', 'XalanDOMChar']),
      (r'return \*this;', 'return self;', (0, 1))]
 
 VEC = ['xv_vec_empty', 'xv_vec_size', 'xv_vec_end', 'xv_vec_back', 'xv_vec_set_back', 'xv_vec_reserve', 'xv_vec_push_back', 'xv_vec_insert_range',
-       'xv_vec_insert_fill', 'xv_vec_resize', 'xv_vec_erase', 'xv_vec_assign', 'xv_strlen']
+       'xv_vec_insert_fill', 'xv_vec_resize', 'xv_vec_set', 'xv_assign_from', 'xv_vec_erase', 'xv_vec_assign', 'xv_strlen']
 
 
 def post(n, expected):
-    return ('__CPROVER_assigns(self->m_size, g_dsize, g_back)\n'
+    return ('__CPROVER_assigns(self->m_size, g_dsize, g_back, g_elem_w)\n'
             '__CPROVER_ensures(/* %s keeps the representation invariant (terminator in place, size field consistent) */ INV(self))\n'
             '__CPROVER_ensures(/* %s: length as std::u16string would have it */ self->m_size == %s)\n' % (n, n, expected))
 
@@ -84,13 +94,15 @@ TEMPLATE = PRELUDE + r'''
 @@FN append_fill@@
 @@FN erase@@
 @@FN resize@@
+@@FN substr@@
 @@FN assign_iter@@
 @@FN insert_units@@
 
-static void xv_havoc(void) { size_t a, b; XalanDOMChar c; g_dsize = a; g_slen = b; g_back = c; }
+static void xv_havoc(void) { size_t a, b, w; XalanDOMChar c, e; g_dsize = a; g_slen = b; g_back = c; g_w = w; g_elem_w = e; }
 void h_append_units(void) { xv_havoc(); XalanDOMString* s; const XalanDOMChar* p; size_t n; append_units(s, p, n); }
 void h_append_fill(void) { xv_havoc(); XalanDOMString* s; XalanDOMChar c; size_t n; append_fill(s, n, c); }
 void h_erase(void) { xv_havoc(); XalanDOMString* s; size_t a, n; erase(s, a, n); }
+void h_substr(void) { xv_havoc(); g_sub_done = false; XalanDOMString* s; size_t a, n; substr(s, 0, a, n); }
 void h_resize(void) { xv_havoc(); XalanDOMString* s; XalanDOMChar c; size_t n; resize(s, n, c); }
 void h_assign_iter(void) { xv_havoc(); XalanDOMString* s; size_t a, b; assign_iter(s, a, b); }
 void h_insert_units(void) { xv_havoc(); XalanDOMString* s; const XalanDOMChar* p; size_t a, n; insert_units(s, a, p, n); }
@@ -119,9 +131,19 @@ UNIT = Unit(
            head_expect=r'^XalanDOMString& XalanDOMString::erase\( size_type theStartPosition, size_type theCount\)$', rules=R, nloops=0,
            contract='__CPROVER_requires(PRE(self) && theStartPosition <= self->m_size && (theCount == XV_NPOS || theCount <= self->m_size - theStartPosition))\n'
                     + post('erase(start, count)', '__CPROVER_old(self->m_size) - (theCount == XV_NPOS ? __CPROVER_old(self->m_size) - theStartPosition : theCount)')),
+        Fn(XSH, r'^\s+substr\(\s*XalanDOMString&\s+theSubstring,', 'substr', 'void* substr(const XalanDOMString* self, void* theSubstring, size_t thePosition, size_t theCount)',
+           rules=R + [(r'assert\(\(theCount == \(\(size_type\)\(XV_NPOS\)\).*?\)\);', '', (0, 1)), (r'theSubstring\.assign\(\s*\*this,', 'xv_assign_from(theSubstring, self,', 1)], nloops=0,
+           contract='''__CPROVER_requires(__CPROVER_is_fresh(self, sizeof(*self)) && INV(self) && self->m_size <= XV_MAX && g_sub_done == false)
+__CPROVER_requires(/* the precondition of substr (its own assert) */ (theCount == XV_NPOS && thePosition < self->m_size) || (theCount != XV_NPOS && theCount <= XV_MAX && thePosition <= self->m_size && theCount <= self->m_size - thePosition))
+__CPROVER_assigns(g_sub_pos, g_sub_count, g_sub_done)
+__CPROVER_ensures(/* substr(pos, count) like std::u16string: count units from pos, npos meaning the rest of the string */
+    g_sub_done == true && g_sub_pos == thePosition && g_sub_count == (theCount == XV_NPOS ? self->m_size - thePosition : theCount))'''),
         Fn(XS, r'^XalanDOMString::resize\(', 'resize', 'void resize(XalanDOMString* self, size_t theCount, XalanDOMChar theChar)',
            head_expect=r'^void XalanDOMString::resize\( size_type theCount, XalanDOMChar theChar\)$', rules=R, nloops=0,
-           contract='__CPROVER_requires(PRE(self) && theCount <= XV_MAX)\n' + post('resize(count, char)', 'theCount')),
+           contract='__CPROVER_requires(PRE(self) && theCount <= XV_MAX && /* the tracked element of a non-empty string: a unit of the string, or its terminator */ (g_w == self->m_size && g_dsize > 0 ==> g_elem_w == 0))\n'
+                    + post('resize(count, char)', 'theCount')
+                    + '__CPROVER_ensures(/* resize(count, char) like std::u16string: kept units keep their value, every added unit is the fill character (also the one where the terminator used to be) */\n'
+                      '    g_w < theCount ==> g_elem_w == (g_w < __CPROVER_old(self->m_size) ? __CPROVER_old(g_elem_w) : theChar))\n'),
         Fn(XS, r'^XalanDOMString::assign\(\s*iterator\s+theFirstPosition,', 'assign_iter',
            'XalanDOMString* assign_iter(XalanDOMString* self, iterator theFirstPosition, iterator theLastPosition)',
            head_expect=r'^XalanDOMString& XalanDOMString::assign\( iterator theFirstPosition, iterator theLastPosition\)$', rules=R, nloops=0,
@@ -136,7 +158,7 @@ UNIT = Unit(
     ],
     template=TEMPLATE,
     jobs=[Job(n, 'h_' + n, enforce=[n], replace=VEC, reach=['entry:' + n], timeout=300)
-          for n in ('append_units', 'append_fill', 'erase', 'resize', 'assign_iter')]
+          for n in ('append_units', 'append_fill', 'erase', 'resize', 'assign_iter', 'substr')]
     + [Job('insert_units', 'h_insert_units', enforce=['insert_units'], replace=VEC + ['append_units'], reach=['entry:insert_units'], timeout=300)],
     mutants=[
         Mutant('append_empty_test', XS, r'(XalanDOMString::append\(\s*const XalanDOMChar\*.*?)if \(m_data\.empty\(\) == true\)', r'\1if (empty() == true)', expect='append'),
